@@ -420,7 +420,9 @@ Proof. exists "fori_body_0/x", "x", "fori_body". vm_compute. reflexivity. Qed.
 (* ------------------------------------------------------------------ computable side conditions (evaluated per run
    by the harness on the literal bases found at the fresh_name call sites of /repo) *)
 Definition clashb (b1 b2 : string) : bool := String.eqb b1 (b2 +++ "_") && negb (ends_sep b2).
-Definition no_clashb (bs : list string) : bool := forallb (fun b1 => forallb (fun b2 => negb (clashb b1 b2)) bs) bs.
+(* only a base ending in "_" can be the longer member of a clashing pair *)
+Definition no_clashb (bs : list string) : bool :=
+  forallb (fun b1 => negb (str_endswith_char b1 "_"%char) || forallb (fun b2 => negb (clashb b1 b2)) bs) bs.
 Definition slash_freeb (bs : list string) : bool := forallb (str_all not_slash) bs.
 Definition cross_okb (cbs bbs : list string) : bool :=
   forallb (fun c => forallb (fun b => negb (String.eqb c b) && negb (String.eqb c (b +++ "_"))) bbs) cbs.
@@ -432,7 +434,9 @@ Definition cross_pairs (cbs bbs : list string) : list (string * string) :=
 Lemma no_clashb_sound bs : no_clashb bs = true -> no_clash bs.
 Proof.
   unfold no_clashb, no_clash. intros H b1 b2 H1 H2 [E N].
-  rewrite forallb_forall in H. specialize (H b1 H1). rewrite forallb_forall in H. specialize (H b2 H2).
+  rewrite forallb_forall in H. specialize (H b1 H1).
+  assert (Hend : str_endswith_char b1 "_"%char = true) by (apply endswith_char_spec; now exists b2).
+  rewrite Hend in H. cbn in H. rewrite forallb_forall in H. specialize (H b2 H2).
   unfold clashb in H. rewrite N in H. subst b1. rewrite String.eqb_refl in H. discriminate.
 Qed.
 
